@@ -101,6 +101,20 @@ CLAIMS["C11"] = dict(
     technique="static analysis: structural-recursion rule over annotated fields + symbolic composition with registry axioms + handler tables",
     design="DESIGN.md section 5, C11")
 
+CLAIMS["C10"] = dict(
+    text="(R1) symbolic codec composition between hugr.ext and the serial extension models: every field of bounds, type / operation "
+         "/ value definitions (incl. type scheme and binary flag) and of the extension itself is preserved and decoded definitions "
+         "are re-attached through add_*; (R2) the definition tables are written only by add_*, which set the owner back-reference "
+         "before registration, and add_op_def adds the own extension to a present type scheme; (R3) every bundled std extension "
+         "file is byte-identical to specification/std_extensions and named after the extension it defines; (R4) every literal "
+         "_load_extension / types[...] / operations[...] / get_op in the std helpers exists in the bundled JSON, instantiations "
+         "match the definitions' parameter count and kinds (incl. the declared variable parameter), cached signatures name their "
+         "own extension.",
+    note="Not decided: that each bundled file loads under pydantic (follows from schema validity, not re-checked). JSON files are "
+         "read as data (the oracle), nothing is executed.",
+    technique="static analysis: symbolic codec composition + who-may-write + byte/table agreement between Python literals and JSON definitions",
+    design="DESIGN.md section 5, C10")
+
 NOT_APPLICABLE_REASON: dict[str, str] = {}
 
 
